@@ -137,6 +137,8 @@ def realise(rng, wl, ref, p):
             i2 = s[p['p'] + 4 - gap - l2:p['p'] + 4 - gap]
         if p['map'] == 'r1':
             i2 = rand_seq(rng, l2)
+    if not i1.startswith('CATG') or len(i1) != p['l1'] or len(i2) != p['l2']:
+        raise RuntimeError('generator self-check: insert of pair %d does not start at a planted cut site' % p['id'])
     p['ins1'], p['ins2'] = i1, i2
     p['q1'], p['q2'] = rand_qual(rng, 11 + len(i1)), rand_qual(rng, 6 + len(i2))
 
@@ -150,10 +152,12 @@ def random_library(rng, wl, n_pairs, name):
     sites = {}
     for nm, ln in contigs:
         ps = {base}
-        for _ in range(rng.choice([0, 1, 2])):
-            ps.add(rng.randint(400, ln - 400))
         if rng.random() < 0.4:
             ps.add(base + 4)
+        for _ in range(rng.choice([0, 1, 2])):
+            q = rng.randint(400, ln - 400)
+            if all(abs(q - x) >= 4 for x in ps):       # two planted CATG must not overwrite each other
+                ps.add(q)
         sites[nm] = sorted(ps)
     loci = [[nm, p, rev] for nm, _ in contigs for p in sites[nm] for rev in (False, True)]
     cells = rng.sample(sorted(wl), rng.randint(2, 5))
@@ -166,15 +170,19 @@ def random_library(rng, wl, n_pairs, name):
     while len(protos) < n_pairs:
         cell, umi = rng.choice(cells), rng.choice(umis)
         loc = rng.choice(hot if rng.random() < 0.7 else loci)
-        for _ in range(rng.choice([1, 1, 2, 3])):
+        geom = (rng.randint(30, 60), rng.randint(25, 60), rng.choice([rng.randint(0, 60), rng.randint(60, 250)]))
+        for _ in range(rng.choice([1, 1, 2, 3])):          # PCR copies: the same fragment again, or another priming position
             bck = rng.choices(['ok', 'mm', 'bad'], [75, 12, 13])[0]
             mapc = rng.choices(['both', 'r1', 'none'], [80, 8, 12])[0]
-            protos.append((bck, cell, umi, loc, mapc))
+            protos.append((bck, cell, umi, loc, mapc, geom if rng.random() < 0.5 else None))
     protos = protos[:n_pairs]
     rng.shuffle(protos)
-    for bck, cell, umi, loc, mapc in protos:
+    for bck, cell, umi, loc, mapc, geom in protos:
         pid += 1
-        pairs.append(make_pair(rng, wl, pid, bck, cell, umi, loc, mapc, rng.randint(1, lanes)))
+        p = make_pair(rng, wl, pid, bck, cell, umi, loc, mapc, rng.randint(1, lanes))
+        if geom:
+            p['l1'], p['l2'], p['gap'] = geom
+        pairs.append(p)
     pairs.sort(key=lambda p: p['lane'])           # a lane is one file pair; ids stay unique over the library
     return finish_library(rng, wl, name, contigs, sites, pairs, lanes)
 
@@ -509,6 +517,13 @@ def run_pipeline(tid, src, lib, ref, cfg, wl, workdir):
     return ev
 
 
+def lib_name(rng, cfg, stem, tid):
+    """header-safe library names (letters, digits, '-', '_'); demux.py derives the name from the file names: kept plain there"""
+    if cfg['entry'] == 'cli':
+        return '%s%d' % (stem, tid % 1000)
+    return rng.choice(['%s%d', 'my-%s_%d', '%s-x_%d-A', '%s%d']) % (stem, tid % 1000)
+
+
 def configs_for(rng, k, tier):
     cfg = {'hd': rng.choice([0, 1]), 'entry': 'cli' if k % 7 == 3 else 'api', 'uhd': rng.choice([0, 1]), 'threads': rng.choice([1, 2, 3]),
            'modes': ['single', 'multi']}
@@ -615,12 +630,13 @@ def main():
                     tid += 1
                     cfg = configs_for(rng, tid, tier)
                     cfg['hd'] = s['hd']
-                    jobs.append((tid, 'scenario', 'scenario', s, cfg, rng.randrange(1 << 30), 'SCN%d' % (tid % 1000)))
+                    jobs.append((tid, 'scenario', 'scenario', s, cfg, rng.randrange(1 << 30), lib_name(rng, cfg, 'SCN', tid)))
         n_rand, n_pairs = (15, 60) if tier == 'quick' else (300, 60)
         for k in range(n_rand):
             tid += 1
             jobs.append((tid, 'random', 'random', rng.choice([20, 120]) if k % 5 == 4 else n_pairs,
-                         configs_for(rng, tid, tier), rng.randrange(1 << 30), 'LIB%d' % (tid % 1000)))
+                         configs_for(rng, tid, tier), rng.randrange(1 << 30), ''))
+            jobs[-1] = jobs[-1][:6] + (lib_name(rng, jobs[-1][4], 'LIB', tid),)
     nproc = int(os.environ.get('X02_PROCS', '6'))
     events = run_parallel(jobs, wl, workdir, nproc, timeout=3000)
     with open(outp, 'w') as f:
